@@ -170,8 +170,11 @@ def check(ctx):
                "file content is validated before %s returns" % f.qualname if not bad2 else
                "%s can return normally with unvalidated file content in the key slot" % f.qualname)
     # the validator really rejects every other length
-    ok = isinstance(len_cmp.ops[0], (ast.NotEq, ast.Eq)) and isinstance(len_cmp.comparators[0], ast.Constant)
-    N = len_cmp.comparators[0].value if ok else None
+    try:
+        N = model.const_eval(validator.module, len_cmp.comparators[0], validator.cls)
+    except ValueError:
+        N = None
+    ok = isinstance(len_cmp.ops[0], (ast.NotEq, ast.Eq)) and isinstance(N, int)
     raises_under = False
     g = an.cfg(validator)
     for n in g.nodes:
